@@ -1,0 +1,84 @@
+//go:build verif
+
+// Contracts for package plugin (plugin registry), checked by /verif/govc. Comment-only: no code.
+// Reflection itself (reflect.Value.Call, MakeFunc, Type comparisons) is uninterpreted: the contracts pin the call structure:
+// which configuration reaches which constructor, how often it is created, and where errors go.
+package plugin
+
+//@ iface implConstructor.NewPlugin
+//@ iface implConstructor.NewFactory
+
+//@ func (r *Registry) get
+//@ props C18
+//@ modifies nothing
+//@ env [registered-entries-have-a-constructor] forall_t(tq, reflect.Type, forall_t(nq, string, imp(has(r.typeToNameReg, tq) && has(r.typeToNameReg[tq], nq), r.typeToNameReg[tq][nq].constructor != nil)))
+//@ ensures [entries-have-a-constructor] imp(err == nil, factory.constructor != nil)
+//@ ensures [unknown-type-or-name-is-an-error] iff(err != nil, !has(r.typeToNameReg, pluginType) || !has(r.typeToNameReg[pluginType], name))
+//@ ensures [the-registered-entry] imp(err == nil, factory == r.typeToNameReg[pluginType][name])
+
+// Creating a component: lookup failure and configuration failure reach the caller as the error and nothing is constructed;
+// otherwise the constructor gets exactly the default configuration filled by the user's settings.
+//@ func (r *Registry) New
+//@ props C18
+//@ nilsafe
+//@ requires pluginType != nil
+//@ may_panic true
+//@ ensures [lookup-failure-is-returned] imp(result_of(r.get, 1) != nil, err == result_of(r.get, 1) && calls(registered.constructor.NewPlugin) == 0)
+//@ ensures [config-failure-is-returned-and-nothing-is-constructed] imp(calls(registered.defaultConfig.Get) == 1 && result_of(registered.defaultConfig.Get, 1) != nil, err == result_of(registered.defaultConfig.Get, 1) && plugin == nil && calls(registered.constructor.NewPlugin) == 0)
+//@ ensures [constructor-outcome-is-returned] imp(calls(registered.constructor.NewPlugin) == 1, plugin == result_of(registered.constructor.NewPlugin, 0) && err == result_of(registered.constructor.NewPlugin, 1))
+//@ at call registered.defaultConfig.Get assert [defaults-overlaid-by-the-user-settings] arg(fillConf) == result_of(getFillConf, 0)
+//@ at call registered.constructor.NewPlugin assert [constructed-from-that-configuration] arg(maybeConf) == result_of(registered.defaultConfig.Get, 0)
+//@ at call r.get assert [the-requested-type-and-name] arg(pluginType) == pluginType0 && arg(name) == name0
+
+// A new default configuration is created for every call and filled by the user's settings; a fill error fails the call.
+//@ func (e defaultConfigContainer) Get
+//@ props C18
+//@ may_panic true
+//@ ensures [fill-failure-is-returned] imp(fillConf != nil && calls(fillConf) == 1 && result_of(fillConf, 0) != nil, err == result_of(fillConf, 0) && len(maybeConf) == 0)
+//@ ensures [a-new-configuration-per-call] imp(result_of(e.configRequired, 0), calls(e.new) == 1) && imp(err == nil && result_of(e.configRequired, 0), maybeConf == result_of(e.new, 0))
+//@ ensures [user-settings-are-applied-to-the-new-configuration] imp(fillConf != nil, calls(fillConf) == 1)
+//@ at call fillConf assert [filled-through-the-address-of-the-new-configuration] imp(result_of(e.configRequired, 0), arg(a0) == result_of(e.new, 1))
+
+// The configuration source handed to a component constructor's factory: every product gets a newly created, newly filled configuration.
+//@ func (r *Registry) NewFactory#lit0
+//@ props C18
+//@ may_panic true
+//@ ensures [a-new-configuration-per-product] calls(registered.defaultConfig.Get) == 1 && result0 == result_of(registered.defaultConfig.Get, 0) && result1 == result_of(registered.defaultConfig.Get, 1)
+//@ at call registered.defaultConfig.Get assert [filled-by-the-user-settings] arg(fillConf) == fillConf
+
+//@ func (r *Registry) NewFactory
+//@ props C18
+//@ nilsafe
+//@ requires factoryType != nil
+//@ may_panic true
+//@ ensures [lookup-failure-is-returned] imp(result_of(r.get, 1) != nil, err == result_of(r.get, 1) && calls(registered.constructor.NewFactory) == 0)
+//@ ensures [constructor-outcome-is-returned] imp(calls(registered.constructor.NewFactory) == 1, factory == result_of(registered.constructor.NewFactory, 0) && err == result_of(registered.constructor.NewFactory, 1))
+//@ at call registered.constructor.NewFactory assert [the-requested-factory-type] arg(factoryType) == factoryType0
+
+// Factory made from a component constructor: each product is built from a configuration obtained for that product.
+//@ func (c *pluginConstructor) NewFactory#lit0
+//@ props C18
+//@ may_panic true
+//@ ensures [one-configuration-and-one-construction-per-product] imp(getMaybeConf != nil, calls(getMaybeConf) == 1) && imp(calls(c.newPlugin.Call) == 1 && getMaybeConf != nil, result_of(getMaybeConf, 1) == nil)
+//@ at call c.newPlugin.Call assert [built-from-that-configuration] imp(getMaybeConf != nil, arg(a0) == result_of(getMaybeConf, 0)) && imp(getMaybeConf == nil, len(arg(a0)) == 0)
+
+// Factory made from a factory constructor: the configuration is obtained once, the registered factory constructor runs once.
+//@ func (c *factoryConstructor) NewFactory
+//@ props C18
+//@ ensures [configuration-obtained-once] imp(getMaybeConf != nil, calls(getMaybeConf) == 1) && imp(getMaybeConf == nil, calls(getMaybeConf) == 0)
+//@ ensures [configuration-failure-is-returned] imp(getMaybeConf != nil && result_of(getMaybeConf, 1) != nil, result1 == result_of(getMaybeConf, 1) && calls(c.callNewFactory) == 0)
+//@ ensures [factory-constructor-failure-is-returned] imp(calls(c.callNewFactory) == 1 && result_of(c.callNewFactory, 1) != nil, result1 == result_of(c.callNewFactory, 1) && result0 == nil)
+//@ ensures [the-factory-constructor-runs-once] calls(c.callNewFactory) <= 1
+
+// ... and every product is one call of the registered factory.
+//@ func (c *factoryConstructor) NewFactory#lit0
+//@ props C18
+//@ may_panic true
+//@ ensures [one-call-of-the-registered-factory-per-product] calls(factory.Call) == 1
+//@ at call convertFactoryOutParams assert [its-results-converted-to-the-requested-shape] arg(out) == result_of(factory.Call, 0) && arg(pluginType) == c.pluginType
+
+//@ func (c *factoryConstructor) NewPlugin
+//@ props C18
+//@ at return factory.Call assume [a-registered-factory-returns-the-component-and-maybe-an-error] len(result_of(factory.Call, 0)) >= 1
+//@ ensures [factory-constructor-failure-is-returned] imp(result_of(c.callNewFactory, 1) != nil, err == result_of(c.callNewFactory, 1) && plugin == nil && calls(factory.Call) == 0)
+//@ at call c.callNewFactory assert [the-given-configuration] arg(maybeConf) == maybeConf0
